@@ -18,7 +18,10 @@ RULE = ("SCC streams in the three caption modes: pop-on groups of 1-3 rows on no
         "groups per stream, each row 0-40 basic characters with lengths biased to 31-34; every "
         "case is also read under every permutation of the rows inside each group. Expected "
         "outcome from the generated row lengths alone. Non-trivial: at least one row longer than "
-        "32 together with another row in the same group.")
+        "32 together with another row in the same group. "
+        'Groups sit on the timeline sequentially, exactly 24 h after the first group, or on '
+        "the first group's timecode again; rows may contain a mid-row code; the final caption "
+        'may be unterminated; the SCCReader object is fresh or has a past. ')
 ASSUMPTIONS = [
     "rows are runs of letters/digits without leading or trailing spaces (their length is unambiguous)",
 ]
